@@ -1,5 +1,5 @@
 (* C14 — relaxing and restoring constraints only moves them.  Property theorems only. *)
-Require Import Ommx.Num Ommx.Poly Ommx.Msg Ommx.Eval Ommx.Tree Ommx.Inst Ommx.InstProofs Ommx.Relax.
+Require Import Ommx.Num Ommx.Poly Ommx.Msg Ommx.Eval Ommx.Tree Ommx.Inst Ommx.InstProofs Ommx.Relax Ommx.Samples Ommx.SamplesProofs Ommx.SamplesCompose.
 From Coq Require Import Permutation.
 
 (* any sequence of relax / restore operations leaves active + removed unchanged as a collection of
@@ -54,6 +54,24 @@ Theorem C14_feasible_invariant : forall I ops s sol sol',
   so_feasible sol' = so_feasible sol.
 Proof. exact run_feasible_invariant. Qed.
 Print Assumptions C14_feasible_invariant.
+
+(* ... also when the states are evaluated as a sample set: for every sample id k of a sample
+   collection with distinct ids, the feasibility flag that get k reports before and after an
+   arbitrary relax / restore history is the same (composition of C06_get_evaluate_samples with the
+   invariance above; the states are assumed to evaluate alone, i.e. to be in bound and covering) *)
+Theorem C14_samples_feasible_invariant : forall I ops S k st ss ss' m m' e e',
+  NoDup (samples_ids S) -> samples_state S k = Some st ->
+  inst_eval I st = Some e -> inst_eval (run I ops) st = Some e' ->
+  inst_eval_samples I S = Some ss -> inst_eval_samples (run I ops) S = Some ss' ->
+  ss_get ss k = Some m -> ss_get ss' k = Some m' ->
+  so_feasible m' = so_feasible m.
+Proof.
+  intros I ops S k st ss ss' m m' e e' ND Hk E E' Es Es' G G'.
+  destruct (get_evaluate_samples S k st ND Hk I ss m e Es G E) as (_ & _ & _ & F & _).
+  destruct (get_evaluate_samples S k st ND Hk (run I ops) ss' m' e' Es' G' E') as (_ & _ & _ & F' & _).
+  rewrite F, F'. eapply run_feasible_invariant; eauto.
+Qed.
+Print Assumptions C14_samples_feasible_invariant.
 
 Example C14_nonvacuous :
   let c k := {| c_id := k; c_eq := 2; c_fn := Some (FConst (qz 1)); c_meta := [] |} in
